@@ -11,6 +11,7 @@ import Lattigo.Model.SamplerSession
                if the run stopped; `inconclusive` if a Gaussian draw left the ziggurat fast path
     qp N=<n> Q=<chain> P=<chain> stream=<desc> fill=<v> calls=<lq.lp.r|n;…>   (level `-` = −1 / nil)
         out:   <matQ>/<matP>@<consumed> per call
+    ctor <P bits> <H>               NewTernarySampler accepts? `ok` / `err`
     matrix <P bits>                 computeMatrixTernary: `<invDensity bits> <row0>;<row1>`
     tables kn|wn|fn|rn              the ziggurat tables as integers / bit patterns
     fmul|fadd|fsub a b, fofnat n, ftrunc a     soft-float vs hardware (bit patterns)
@@ -179,6 +180,8 @@ def handle (toks : List String) : String :=
       let inv := invDensity pb
       let M := probaMatrix inv
       some (toString (SF.toBits64 inv) ++ " " ++ showVec M.1 ++ ";" ++ showVec M.2)
+    | ["ctor", p, h] => do
+      some (if ternCtorOK (← p.toNat?) (← h.toInt?) then "ok" else "err")
     | ["tables", "kn"] => some (showVec Zig.kn.toList)
     | ["tables", "wn"] => some (showVec Zig.wn.toList)
     | ["tables", "fn"] => some (showVec Zig.fn.toList)
